@@ -22,6 +22,7 @@ func checkC16(c *Ctx) {
 	p := c.P
 	checkC16NameLookup(c)
 	checkC16KeyAll(c)
+	checkC16RuleCopy(c)
 	dbT := p.Named(pkgGorm, "DB")
 
 	// ---- C16.carry ----
